@@ -130,7 +130,7 @@ class dtsign(sym.Function):
         if val.is_Number:
             if val >= 0:
                 return S.One
-            return S.Zero
+            return -S.One
 
 
 class sincn(sym.Function):
